@@ -286,3 +286,57 @@ func vfAcceptedOraclePlain(x []byte, b Bundle) (msg string) {
 	}
 	return ""
 }
+
+// ---- endpoint IDs inside routing metadata blocks (deterministic enumeration) ----
+
+type c01InnerEID struct {
+	Where string     `json:"where"` // dtlsr-id, dtlsr-peer, prophet-key, previous-node
+	EID   vk.EIDSpec `json:"eid"`
+	CRC   uint64     `json:"crc"`
+}
+
+func TestVerifC01InnerEIDs(t *testing.T) {
+	vfRegisterCustom()
+	u := vk.Unit{Property: "C01", Name: "c01.inner-eids",
+		Rule: "enumeration: every place where an endpoint ID occurs inside a block (DTLSR node id, DTLSR peer key, PRoPHET key, previous node) x valid and invalid endpoint IDs (ipn with a zero number, malformed dtn SSPs, dtn:none) x block CRC none/16/32, encoded by the independent encoder; whenever the parser accepts, oracle O2 (re-serialisable, re-accepted, same ID and blocks, fixed point) must hold; every case non-trivial; distinct by case"}
+	eids := append([]vk.EIDSpec{{Kind: "none"}, {Kind: "dtn", Node: "n", Demux: "x"}, {Kind: "ipn", N: 1, S: 1}}, c02BadEIDs...)
+	vk.Enumerate(t, u, true, func(yield func(c01InnerEID) bool) {
+		for _, w := range []string{"dtlsr-id", "dtlsr-peer", "prophet-key", "previous-node"} {
+			for _, e := range eids {
+				for crc := uint64(0); crc <= 2; crc++ {
+					if !yield(c01InnerEID{w, e, crc}) {
+						return
+					}
+				}
+			}
+		}
+	}, func(c *vk.Ctx, cs c01InnerEID) {
+		c.NonTrivial()
+		good := vk.EIDSpec{Kind: "dtn", Node: "good", Demux: ""}
+		var blk vk.BlockSpec
+		e := cs.EID
+		switch cs.Where {
+		case "dtlsr-id":
+			blk = vk.BlockSpec{Type: vk.BTDTLSR, Num: 2, CRC: cs.CRC, EID: &e, U: 5, DPeers: []vk.DPeer{{EID: good, Ts: 1}}}
+		case "dtlsr-peer":
+			blk = vk.BlockSpec{Type: vk.BTDTLSR, Num: 2, CRC: cs.CRC, EID: &good, U: 5, DPeers: []vk.DPeer{{EID: e, Ts: 1}}}
+		case "prophet-key":
+			blk = vk.BlockSpec{Type: vk.BTProphet, Num: 2, CRC: cs.CRC, PPeers: []vk.PPeer{{EID: e, Bits: 0x3FE0000000000000}}}
+		default:
+			blk = vk.BlockSpec{Type: vk.BTPrev, Num: 2, CRC: cs.CRC, EID: &e}
+		}
+		s := vk.BundleSpec{CRC: 2, Dst: good, Src: good, Rpt: good, TsAgoMs: 5, TsSeq: 1, Lifetime: 3600000,
+			Blocks: []vk.BlockSpec{blk, {Type: vk.BTPayload, Num: 1, PayLen: 5, PaySeed: 1}}}
+		raw := s.Encode(vfNowDtn())
+		b, err := vfParse(raw)
+		if err != nil {
+			c.Class("rejected")
+			if e.Valid() {
+				c.Failf("c01.valid-rejected", "bundle with the valid endpoint %s as %s is rejected: %v", e.String(), cs.Where, err)
+			}
+			return
+		}
+		c.Class("accepted")
+		vfAcceptedOracle(c, raw, b)
+	})
+}
